@@ -25,7 +25,7 @@ def run(cmd, cwd, env=None, timeout=600):
 
 def main():
     pid, outdir = sys.argv[1], sys.argv[2]
-    existing = len(glob.glob(os.path.join(HERE, 'seeded', f'{pid}-s*')))
+    existing = max([int(os.path.basename(g).split('-s')[1]) for g in glob.glob(os.path.join(HERE, 'seeded', f'{pid}-s*')) + glob.glob(os.path.join(HERE, 'seeded_retired', f'{pid}-s*'))] or [0])   # highest index ever used (retired ones leave gaps)
     for d in sorted(glob.glob(os.path.join(outdir, '*'))):
         patch, demo = os.path.join(d, 'patch.diff'), os.path.join(d, 'demo.py')
         if not (os.path.exists(patch) and os.path.exists(demo)):
